@@ -1305,6 +1305,9 @@ def risk(stmt, ds=None):
             for b in pr.query.branches[1:]:
                 lost |= b.reads(ds)
             add("where.subquery_setop_paren", lost)
+            if pr.kind == "exists":
+                # some dialect grammars read EXISTS ((...) op (...)) as nested function calls (KF-14i)
+                add("where.exists_setop_paren", pr.query.reads(ds))
         for k in pr.kids:
             walk_pred(k)
 
